@@ -46,6 +46,11 @@ def lat(s):
     return None if s is None else s.encode('latin-1')
 
 
+def json_key(x):
+    import json
+    return json.dumps(x, sort_keys=True)
+
+
 def shard_size(lits, budget=600000, lo=10, hi=150):
     """cases per Coq file so that one file stays below ~budget characters (single list literals beyond ~40000 elements overflow coqc's stack)"""
     if not lits:
@@ -482,6 +487,21 @@ def run(ctx):
         raw += b'Content-Length: %d\r\n\r\n' % len(body) + body
         raw_cases.append({'raw': hx(raw), 'answer': hx(gen_body(rng)), 'server_enabled': enabled,
                           'server_chunk': rng.choice([0, 3, 512]), 'header': hdr, 'body': hx(body)})
+    conn_cases = []
+    accept_pool = [None, None, 'gzip', 'gzip;q=0', 'gzip;q=0.0', 'identity', 'x-lz4', 'lz4', 'lz4, gzip;q=0.5', '*;q=0', 'br',
+                   'gzip;q=1.0, identity; q=0.5, *;q=0', 'x-lz4;q=0, gzip', '']
+    for _ in range(ctx.n(150, 1500)):
+        reqs = []
+        for _k in range(rng.randint(2, 5)):
+            acc = rng.choice(accept_pool)
+            if rng.random() < 0.15:
+                acc = gen_header(rng)
+                if acc is not None:
+                    acc = re.sub(r'[^\x20-\x7e\t]', ' ', acc).strip(' \t')
+            reqs.append({'accept': acc, 'ce': rng.choice([None, None] + avail), 'chunk': rng.choice([0, 0, 1, 7, 512]),
+                         'body': hx(gen_body(rng)[:400]), 'answer': hx(b'<answer n="%d">' % _k + gen_body(rng)[:300] + b'</answer>')})
+        conn_cases.append({'server_enabled': rng.sample(avail, rng.randint(0, len(avail))) if rng.random() < 0.7 else ['gzip'],
+                           'server_chunk': rng.choice([0, 0, 5, 512]), 'requests': reqs})
     codec_cases = []
     for _ in range(ctx.n(60, 600)):
         alg = rng.choice(avail)
@@ -501,7 +521,7 @@ def run(ctx):
         'server_choice': [{'header': lh(h), 'enabled': [lh(e) for e in en]} for h, en in sc_cases],
         'client_choice': [{'request_encodings': [lh(x) for x in c['request_encodings']], 'supported': [lh(x) for x in c['supported']],
                            'chunk': c['chunk']} for c in cc_cases],
-        'e2e': e2e_cases, 'raw': raw_cases, 'codec': codec_cases,
+        'e2e': e2e_cases, 'raw': raw_cases, 'codec': codec_cases, 'conn': conn_cases,
     }
     impl = ctx.impl('c17_impl', payload, timeout=1500)
     if impl.get('_crash'):
@@ -639,6 +659,38 @@ def run(ctx):
             if bad:
                 ctx.fail(f'async client: {bad[1]}', {'stream': 'client_choice', 'clause': bad[0], 'client': 'async'},
                          {'stream': 'client_choice', 'case': c, 'impl_trace': tr, 'oracle': {'verdict': 'fail', 'clause': bad[0]}})
+    # keep-alive connections: every response is judged against the headers of ITS request
+    n_conn_req = n_conn_coded = n_conn_changes = 0
+    for i, (c, tr) in enumerate(zip(conn_cases, impl['conn'])):
+        reqs, resps = c['requests'], tr['responses']
+        bad = None
+        if tr['escaped']:
+            bad = ('exception', f'exception on a connection with {len(reqs)} valid requests: {tr["escaped"]}', None)
+        elif len(resps) != len(reqs) or tr['unparsed_output']:
+            bad = ('response-count', f'{len(reqs)} requests on one connection, {len(resps)} responses (+{tr["unparsed_output"]} unparsed bytes)', None)
+        elif tr['server_saw'] != [r['body'] for r in reqs]:
+            bad = ('request-lossy', 'the component did not receive exactly the request bodies that were sent, in order', None)
+        prev = None
+        for k, (r, a) in enumerate(zip(reqs, resps)):
+            n_conn_req += 1
+            n_conn_coded += a['ce'] is not None
+            n_conn_changes += k > 0 and r['accept'] != prev
+            prev = r['accept']
+            nlits.append((f'(NServer {OB(lat(r["accept"]))} {BL([lat(e) for e in c["server_enabled"]])})',
+                          f'(NChoice (Some {OB(lat(a["ce"]))}))', 'conn', i))
+            if bad:
+                continue
+            if a['status'] != 200 or a['content'] != r['answer']:
+                bad = ('response-lossy', f'response {k + 1} of {len(reqs)} on the connection is not the answer to request {k + 1} '
+                                         f'(status {a["status"]}, {a["err"]})', k)
+            else:
+                co = choice_oracle(r['accept'], c['server_enabled'], a['ce'])
+                if co:
+                    bad = (co[0], f'response {k + 1} of {len(reqs)} on one connection (Accept-Encoding of the requests: '
+                                  f'{[x["accept"] for x in reqs[:k + 1]]}): {co[1]}', k)
+        if bad:
+            ctx.fail(f'conn: {bad[1]}', {'stream': 'conn', 'clause': bad[0], 'first_request': bad[2] == 0},
+                     {'stream': 'conn', 'case': c, 'impl_trace': tr, 'oracle': {'verdict': 'fail', 'clause': bad[0], 'request_index': bad[2]}})
     mism, err = ctx.coq_mism('negotiation', HEADER, 'nres_eqb', 'run_neg', [(a, b) for a, b, _, _ in nlits], shard=500,
                              deps=['Http/Negotiation.vo'])
     if err:
@@ -648,7 +700,7 @@ def run(ctx):
     for j in mism:
         if nlits[j][2] != 'modelled':
             by_stream.setdefault(nlits[j][2], []).append(j)
-    ncases = {'parse_header': ph_cases, 'server_choice': sc_cases, 'client_choice': cc_cases}
+    ncases = {'parse_header': ph_cases, 'server_choice': sc_cases, 'client_choice': cc_cases, 'conn': conn_cases}
     for name, js in by_stream.items():
         j = js[0]
         ctx.broken('correspondence', name, {'disagreements': len(js), 'first': {
@@ -659,6 +711,8 @@ def run(ctx):
               with_zero_quality=sum(1 for h in ph_cases if h and re.search(r'q\s*=\s*0(\.0*)?\s*(,|$)', h)))
     ctx.sample({'stream': 'parse_header', 'header': ph_cases[1], 'impl': impl['parse_header'][1]})
     ctx.count('server_choice', len(sc_cases), [(h, tuple(en)) for h, en in sc_cases], coding_chosen=n_srv)
+    ctx.count('conn', n_conn_req, [json_key(c) for c in conn_cases], connections=len(conn_cases), responses_coded=n_conn_coded,
+              accept_encoding_changes_within_connection=n_conn_changes)
     ctx.count('client_choice', len(cc_cases), [(tuple(c['request_encodings']), tuple(c['supported'])) for c in cc_cases], coding_chosen=n_cli, async_client_cases=n_async)
 
     # ------------------------------------------------------------ oracle streams e2e / raw / codec
@@ -724,6 +778,8 @@ def run(ctx):
              'function and on the Coq model (vm_compute) and compared exactly (framing bytes; outcome tag, bytes handed on, '
              'bytes left in the stream; accepted list; chosen coding); the property oracle judges every implementation trace '
              'independently (strict chunk parser, http.client as second reader, RFC 7231 reading of Accept-Encoding). '
+             'conn: 2-5 requests with their own Accept-Encoding / Content-Encoding / framing on ONE connection (one handler '
+             'instance); every response is judged against its own request and its coding compared with the model. '
              'e2e/raw/codec are oracle-only. distinct = distinct inputs.',
         assumptions=['decompress c (compress c b) = b for the registered codings (premise of the two round-trip theorems; '
                      'checked by the codec stream on every run)',
@@ -788,7 +844,7 @@ def replay(ctx, rep):
         out['impl'] = ctx.impl('c17_impl', {'client_choice': [{'request_encodings': [lh(x) for x in case['request_encodings']],
                                                                 'supported': [lh(x) for x in case['supported']], 'chunk': case.get('chunk', 0)}]})['client_choice'][0]
         out['model'] = ctx.coq_eval(HEADER, f'run_client_choice ({BL([lat(x) for x in case["request_encodings"]])}, {BL([lat(x) for x in case["supported"]])})')
-    elif stream in ('e2e', 'raw', 'codec'):
+    elif stream in ('e2e', 'raw', 'codec', 'conn'):
         if stream == 'raw' and 'raw' not in case:
             hdr = case.get('header')
             body = bytes.fromhex(case['body'])
